@@ -561,6 +561,12 @@ class simplify_chained_calls(FuncADLNodeTransformer):
             # inside a `First`), the method of a call is left attached to its object.
             obj = self.visit(call_node.func.value)
             method = ast.Attribute(value=obj, attr=call_node.func.attr, ctx=ast.Load())
+            if isinstance(obj, ast.Dict):
+                # A field of a dictionary that is called (`d.pt()`): the field's value is what
+                # is called.
+                found = self.visit_Subscript_Dict_with_value(obj, call_node.func.attr)
+                if found is not None:
+                    method = found
             return ast.Call(
                 func=method,
                 args=[self.visit(a) for a in call_node.args],
